@@ -23,7 +23,7 @@ def objdump_batch(cases, syntax='intel', raw=False):
         for c in cases:
             f.write(c.ljust(SLOT, b'\x90'))
     try:
-        args = ['objdump', '-D', '-b', 'binary', '-m', 'i386', '--no-show-raw-insn']
+        args = ['objdump', '-D', '-z', '-b', 'binary', '-m', 'i386', '--no-show-raw-insn']
         args += ['-M', 'intel'] if syntax == 'intel' else ['-M', 'att'] if syntax == 'att' else []
         r = subprocess.run(args + [path], stdout=subprocess.PIPE, stderr=subprocess.PIPE)
         if r.returncode != 0:
